@@ -200,6 +200,48 @@ func init() {
 			mut[h] = "locked:" + strings.Join(inside, ",") + ";unlocked:" + strings.Join(outside, ",")
 		}
 		c.Fact("paginate.mutators", mut)
+
+		// (4b) the sections of the Add* functions (TwoPhase.lean: `validate` has no effect and reads no server
+		// state, `commit` is featureSet.add): every use of the receiver `s` OUTSIDE the closure given to
+		// changeAndNotify, in source order. AddTool validates before it locks (its schema marshalling runs
+		// user code): there it may use the logger only; the others do everything inside the closure.
+		secs := map[string][]string{}
+		for _, h := range []string{"AddPrompt", "AddTool", "AddResource", "AddResourceTemplate"} {
+			fd := c.Func("mcp", "Server", h)
+			if fd == nil {
+				continue
+			}
+			uses := []string{}
+			var walk func(n ast.Node)
+			walk = func(n ast.Node) {
+				ast.Inspect(n, func(x ast.Node) bool {
+					switch e := x.(type) {
+					case *ast.CallExpr:
+						if c.Src(e.Fun) == "s.changeAndNotify" {
+							uses = append(uses, "s.changeAndNotify")
+							return false
+						}
+					case *ast.SelectorExpr:
+						root := ast.Expr(e)
+						for {
+							se, ok := root.(*ast.SelectorExpr)
+							if !ok {
+								break
+							}
+							root = se.X
+						}
+						if id, ok := root.(*ast.Ident); ok && id.Name == "s" && id.Obj != nil && id.Obj.Decl == fd.Recv.List[0] {
+							uses = append(uses, c.Src(e))
+							return false
+						}
+					}
+					return true
+				})
+			}
+			walk(fd.Body)
+			secs[h] = uses
+		}
+		c.Fact("paginate.add_sections", secs)
 		if fd := c.Func("mcp", "Server", "changeAndNotify"); fd != nil && isLockPair(c, fd.Body.List) {
 			c.Fact("paginate.changeAndNotify_lock", "lock-defer-unlock")
 		} else {
